@@ -224,8 +224,11 @@ class RequirementsRelationAccessor(
             assert elmlist._parent == value.source
             parent = elmlist._parent._element
 
+        loader = elmlist._model._loader
+        if value._element.getparent() is not None:
+            loader.idcache_remove(value._element)
         parent.insert(index, value._element)
-        elmlist._model._loader.idcache_index(value._element)
+        loader.idcache_index(value._element)
 
     @contextlib.contextmanager
     def purge_references(
